@@ -950,7 +950,7 @@ func c09R1(c *Ctx, r *Report, rule string) {
 }
 
 func c09R2(c *Ctx, r *Report, rule string) {
-	r.rule(rule, "association key agreement in servePacket: the table is looked up and filled with <datagram source address>.String(), cleaned with the strings received on the close-notification channel, and every notification sent on that channel is <the virtual connection's addr>.String()", 5)
+	r.rule(rule, "association key agreement in servePacket: the table is looked up and filled with <datagram source address>.String(), cleaned with the strings received on the close-notification channel, and every notification sent on that channel is <the virtual connection's addr>.String()", 4)
 	fn := c.Fn("layer4.(*Server).servePacket")
 	if fn == nil {
 		r.bad(rule, "layer4.(*Server).servePacket", "exists", "-", "function not found")
@@ -1141,60 +1141,79 @@ func c09R4(c *Ctx, r *Report, rule string) {
 		}
 		r.check(good, rule, fname(fn), "forward to one queue", c.pos(fn.Pos()), "each datagram is forwarded to the queue of the association found or created for its source address", "datagram forwarding is not a single send to the association's queue: "+detail)
 	}
-	// App.Start
-	if fn := c.Fn("layer4.(*App).Start"); fn == nil {
-		r.bad(rule, "layer4.(*App).Start", "exists", "-", "function not found")
-	} else {
+	// every place that starts a serve loop (App.Start or a helper of it)
+	{
 		found, good, detail := false, true, ""
-		check := func(f *ssa.Function, arg ssa.Value, at ssa.Instruction) {
+		where := "layer4.(*App).Start"
+		check := func(arg ssa.Value, at ssa.Instruction) {
 			found = true
-			os := origins(arg, sliceOpts{})
-			for _, o := range os {
+			for _, o := range origins(arg, sliceOpts{}) {
 				if (o.Kind == "field" || o.Kind == "fieldaddr") && strings.HasSuffix(o.Desc, ".packetConns") {
 					good = false
 					detail = "servePacket is started for elements of the accumulated App.packetConns list at " + c.ipos(at) + ": a socket gets a second serve loop"
 				}
 			}
 		}
-		var scan func(f *ssa.Function)
-		scan = func(f *ssa.Function) {
+		for _, f := range c.Funcs {
 			for _, ci := range callsIn(f) {
-				if calleeID(ci) == "layer4.(*Server).servePacket" {
-					arg := ci.Common().Args[1]
-					// inside a go closure the pc is the closure's parameter: map to the go site's argument
-					if p, ok := arg.(*ssa.Parameter); ok && f.Parent() != nil {
-						for _, pci := range callsIn(f.Parent()) {
-							if closureOf(pci.Common().Value) == f {
-								idx := 0
-								for i, pp := range f.Params {
-									if pp == p {
-										idx = i
-									}
-								}
-								check(f.Parent(), pci.Common().Args[idx], pci)
-								if _, isGo := pci.(*ssa.Go); !isGo {
-									good, detail = false, "servePacket closure is not started with go"
-								}
-							}
+				if calleeID(ci) != "layer4.(*Server).servePacket" {
+					continue
+				}
+				where = fname(f)
+				arg := ci.Common().Args[1]
+				if _, isGo := ci.(*ssa.Go); isGo {
+					check(arg, ci)
+					continue
+				}
+				// inside a closure the socket is the closure's parameter: map to the go site's argument
+				p, isParam := arg.(*ssa.Parameter)
+				if !isParam || f.Parent() == nil {
+					found, good, detail = true, false, "servePacket is called synchronously in "+fname(f)
+					continue
+				}
+				started := false
+				for _, pci := range callsIn(f.Parent()) {
+					if closureOf(pci.Common().Value) == f {
+						idx := paramIndex(f, p)
+						if idx >= 0 && idx < len(pci.Common().Args) {
+							check(pci.Common().Args[idx], pci)
 						}
-					} else {
-						check(f, arg, ci)
+						if _, isGo := pci.(*ssa.Go); isGo {
+							started = true
+						}
 					}
 				}
-			}
-			for _, a := range f.AnonFuncs {
-				scan(a)
+				if !started {
+					good, detail = false, "the closure calling servePacket is not started with go"
+				}
 			}
 		}
-		scan(fn)
-		r.check(found && good, rule, fname(fn), "one serve loop per socket", c.pos(fn.Pos()), "servePacket is started with the PacketConn of the current listener", "servePacket start site not found or wrong: "+detail)
+		r.check(found && good, rule, "layer4.(*App).Start", "one serve loop per socket", "-", "servePacket is started (in "+where+") with the PacketConn of the current listener", "servePacket start site not found or wrong: "+detail)
 	}
 }
 
 func c09R5(c *Ctx, r *Report, rule string) {
-	r.rule(rule, "end-of-association notifications on the close-notification channel are blocking sends; none is a select with default (which would drop it when the channel is full)", 2)
+	r.rule(rule, "end-of-association notifications on the close-notification channel are blocking sends; none is a select with default (which would drop it when the channel is full); both packetConn.Close and packetConn.Read (idle expiry) reach such a send", 3)
 	uses := c.channelUses()
 	n := 0
+	sendFns := map[*ssa.Function]bool{}
+	for _, u := range uses["field layer4.packetConn.closeCh"] {
+		if strings.Contains(u.kind, "send") {
+			sendFns[u.fn] = true
+		}
+	}
+	for _, m := range []string{"layer4.(*packetConn).Close", "layer4.(*packetConn).Read"} {
+		mf := c.Fn(m)
+		found := false
+		if mf != nil {
+			for f := range c.reach([]*ssa.Function{mf}) {
+				if sendFns[f] {
+					found = true
+				}
+			}
+		}
+		r.check(found, rule, m, "notifies the server loop", "-", "a send on the close-notification channel is reachable", "no send on the close-notification channel is reachable from "+m+": the association is never removed from the table")
+	}
 	for _, u := range uses["field layer4.packetConn.closeCh"] {
 		if !strings.Contains(u.kind, "send") {
 			continue
@@ -1674,10 +1693,11 @@ func c13R4(c *Ctx, r *Report, rule string) {
 				waited = true
 			}
 		}
+		// the closing function is started with go (a closure or a method), by the loop or a helper of it
 		ownGoroutine := false
-		if par := u.fn.Parent(); par != nil {
-			for _, ci := range callsIn(par) {
-				if g, ok := ci.(*ssa.Go); ok && closureOf(g.Call.Value) == u.fn {
+		for _, f := range c.Funcs {
+			for _, ci := range callsIn(f) {
+				if g, ok := ci.(*ssa.Go); ok && (closureOf(g.Call.Value) == u.fn || g.Call.StaticCallee() == u.fn) {
 					ownGoroutine = true
 				}
 			}
@@ -1694,7 +1714,50 @@ func c13R4(c *Ctx, r *Report, rule string) {
 		ci, ok := in.(ssa.CallInstruction)
 		return ok && calleeID(ci) == "(*sync.WaitGroup).Wait"
 	}
-	drain := pathFromEntryAvoiding(loop, isDrain, isWait)
+	// the drain may live in a helper the loop calls synchronously; a synchronous call of something that waits counts as waiting
+	waits := func(f *ssa.Function) bool {
+		for g := range c.reachSync(f) {
+			for _, ci := range callsIn(g) {
+				if calleeID(ci) == "(*sync.WaitGroup).Wait" {
+					return true
+				}
+			}
+		}
+		return false
+	}
+	var drainFn *ssa.Function
+	isDrainOrCallsDrain := func(in ssa.Instruction) bool {
+		if isDrain(in) {
+			drainFn = loop
+			return true
+		}
+		if call, ok := in.(*ssa.Call); ok {
+			if cal := call.Call.StaticCallee(); cal != nil && cal != loop && !waits(cal) {
+				for g := range c.reachSync(cal) {
+					if pathFromEntryAvoiding(g, isDrain, isWait) != nil {
+						drainFn = g
+						return true
+					}
+				}
+			}
+		}
+		return false
+	}
+	isWaitOrCallsWait := func(in ssa.Instruction) bool {
+		if isWait(in) {
+			return true
+		}
+		if call, ok := in.(*ssa.Call); ok {
+			if cal := call.Call.StaticCallee(); cal != nil && cal != loop && cal.Pkg == loop.Pkg && waits(cal) {
+				return true
+			}
+		}
+		return false
+	}
+	drain := pathFromEntryAvoiding(loop, isDrainOrCallsDrain, isWaitOrCallsWait)
+	if drain != nil && drainFn != nil && drainFn != loop {
+		drain = pathFromEntryAvoiding(drainFn, isDrain, isWait)
+	}
 	r.check(drain != nil, rule, fname(loop), "drain not behind Wait", c.pos(loop.Pos()), "pending connections are drained while the handlers finish", "the loop waits for the handlers before draining the hand-off channel: handlers blocked on a full channel never finish, the loop and they stay blocked forever and pending connections are never closed")
 	// drained conns closed
 	okDrainClose := false
